@@ -193,6 +193,9 @@ def in_interpreter(flags, module: str, func: str, arg, timeout: int = 900):
     from .report import VERIF
     code = ("import base64,pickle,sys,importlib;"
             f"m=importlib.import_module({module!r});"
+            # mc.lib silences DeprecationWarning on import; an interpreter asked to escalate warnings
+            # gets its filter back once the harness modules are loaded
+            + ("import warnings;warnings.simplefilter('error');" if "error" in flags else "") +
             "arg=pickle.loads(base64.b64decode(sys.stdin.read()));"
             f"res=getattr(m,{func!r})(arg);"
             "sys.stdout.write('RESULT='+base64.b64encode(pickle.dumps(res)).decode())")
